@@ -35,6 +35,9 @@ def one(args):
 if __name__ == "__main__":
     props = built()
     seeds = sorted(os.path.basename(os.path.dirname(m)) for m in glob.glob("/verif/seeded/*/meta.json"))
+    if "--only" in sys.argv:      # --only C01-13,C01-14  or  --only -13,-14 (suffixes)
+        pats = sys.argv[sys.argv.index("--only") + 1].split(",")
+        seeds = [s for s in seeds if any(s == p or (p.startswith("-") and s.endswith(p)) for p in pats)]
     tasks = [(s, p) for s in seeds for p in props]
     with ProcessPoolExecutor(16) as ex:
         res = list(ex.map(one, tasks, chunksize=4))
